@@ -37,9 +37,11 @@ def run(ctx):
             ok, det = False, "the transcribed structure does not compile: %s" % ex
         r.ob("C17.pattern-compiles", kc.name, ok, det, kc.structure_func.where() if kc.structure_func else kc.ci.where())
     r.floor("C17.cutter", 80)
-    raise_inventory(ctx, "C17")
-    accessor_totality(ctx, "C17.accessor-totality")
-    k19_match(ctx, "C17")
+    ctx.guard(raise_inventory, ctx, "C17")
+    ctx.guard(accessor_totality, ctx, "C17.accessor-totality")
+    ctx.guard(k19_match, ctx, "C17")
     collect_walk_effects(ctx)
-    kernel_raise_classes(ctx, "C17.assembly-raises")
-    builtin_method_lint(ctx, "C17.builtin-method")
+    ctx.guard(kernel_raise_classes, ctx, "C17.assembly-raises")
+    ctx.guard(builtin_method_lint, ctx, "C17.builtin-method")
+    from ..rules_misc import k21_match_overrides
+    ctx.guard(k21_match_overrides, ctx, "C17")
